@@ -13,15 +13,26 @@ def dag(rng, fallback=False):
     return {"family": "dag-fallback" if fallback else "dag", "spec": spec, "inputs": provided, "kw": {}, "unique_outputs": True}
 
 
+def outputs_unique(spec) -> bool:
+    """No output name (data or emit) has two producers anywhere in the program."""
+    from hgmon import ref
+
+    def walk(p):
+        names = [e for ns in p["nodes"] for _, e in ref.node_outputs(ns)]
+        return len(names) == len(set(names)) and all(walk(ns["prog"]) for ns in p["nodes"] if ns["k"] == "sub")
+
+    return walk(spec)
+
+
 def gated(rng, deterministic=None):
     det = rng.random() < 0.6 if deterministic is None else deterministic
     spec = gen.gen_gated(rng, deterministic=det)
-    return {"family": "gated", "spec": spec, "inputs": gen.gated_inputs(rng, spec), "kw": {}, "unique_outputs": False, "deterministic": det}
+    return {"family": "gated", "spec": spec, "inputs": gen.gated_inputs(rng, spec), "kw": {}, "unique_outputs": outputs_unique(spec), "deterministic": det}
 
 
 def loop(rng):
     t = loops.gen_loop(rng)
-    return {"family": "loop", "spec": t["spec"], "inputs": t["inputs"], "kw": {}, "unique_outputs": False, "ref": t["ref"], "template": t["template"]}
+    return {"family": "loop", "spec": t["spec"], "inputs": t["inputs"], "kw": {}, "unique_outputs": outputs_unique(t["spec"]), "ref": t["ref"], "template": t["template"]}
 
 
 def waitdag(rng):
@@ -32,8 +43,33 @@ def waitdag(rng):
     return {"family": "waitdag", "spec": spec, "inputs": inputs, "kw": {}, "unique_outputs": True}
 
 
+def rewait(rng):
+    """A producer of a signal that becomes runnable AGAIN in the very step in which its waiters see the fresh signal
+    (one of its inputs has a default and the real value arrives a step - or a chain of 1-2 steps - later). The
+    waiters must be deferred to the producer's re-run whatever the order of the node list."""
+    depth = rng.randint(1, 2)
+    nodes = []
+    prev = "a"
+    for d in range(depth):
+        nodes.append({"k": "fn", "name": f"feed{d}", "params": [{"n": prev}], "outs": [f"late{d}"]})
+        prev = f"late{d}"
+    nodes.append({"k": "fn", "name": "prod", "params": [{"n": "a"}, {"n": prev, "d": f"def:{prev}"}], "outs": ["pv"], "emit": ["sig"]})
+    for j in range(rng.randint(1, 3)):
+        w = {"k": "fn", "name": f"waiter{j}", "params": [{"n": "a"}] + ([{"n": "pv"}] if rng.random() < 0.5 else []), "outs": [f"w{j}"], "wait": ["sig"]}
+        nodes.append(w)
+    order = rng.choice(["waiters-first", "producer-first", "shuffled"])
+    if order == "waiters-first":
+        nodes.reverse()
+    elif order == "shuffled":
+        rng.shuffle(nodes)
+    spec = {"name": "g", "nodes": nodes, "bind": {}}
+    return {"family": "waitdag", "spec": spec, "inputs": {"a": "run:a"}, "kw": {}, "unique_outputs": True, "template": "rewait"}
+
+
 def pick(rng, names):
     n = rng.choice(names)
+    if n == "rewait":
+        return rewait(rng)
     if n == "dag":
         return dag(rng)
     if n == "dag-fallback":
